@@ -59,8 +59,11 @@ Example hypotheses_satisfiable :
   Reachable V3 run_crashed /\ commit (st run_crashed 1) = 0%nat /\
   log (st run_crashed 1) = [(2, 0)].
 Proof.
-  pose proof run_facts as H.
-  split; [apply H|]. split; [apply H|].
-  vm_compute. repeat split; try reflexivity. apply H.
+  split; [exact (proj1 run_facts)|]. split; [exact reachable_run_followers|].
+  split; [vm_compute; reflexivity|]. split; [vm_compute; reflexivity|].
+  split; [vm_compute; reflexivity|]. split; [vm_compute; reflexivity|].
+  split; [vm_compute; reflexivity|]. split; [vm_compute; reflexivity|].
+  split; [exact reachable_run_crashed|].
+  vm_compute. split; reflexivity.
 Qed.
 Print Assumptions hypotheses_satisfiable.
